@@ -10,6 +10,9 @@
 #include "libvpsc/solve_VPSC.h"
 #include "libvpsc/variable.h"
 #include "libvpsc/constraint.h"
+#include "libvpsc/rectangle.h"
+#include "libcola/cola.h"
+#include "libcola/cluster.h"
 #include <functional>
 
 using namespace av;
@@ -193,11 +196,63 @@ static void case_regress(const Args &a, long idx, bool wantDesc, CaseResult &res
     } else res.inconclusive = "no-such-witness";
 }
 
+// libcola ownership: a layout that is handed rectangles, compound constraints (the same pointer may be listed more than once) and a
+// cluster hierarchy and is asked to free them itself (freeAssociatedObjects), and the majorization layout with the unsatisfiable-constraint
+// lists and overlap avoidance switched on together.
+static void case_cola(const Args &a, long idx, bool wantDesc, CaseResult &res) {
+    Rng R(mix(mix(a.seed, 0xC15C), (uint64_t)idx));
+    int n = (int)R.ri(2, 14); int kind = (int)R.ri(0, 2); bool overlaps = R.coin(0.5);  // 0: FD layout owning its objects, 1: FD layout, caller frees, 2: majorization with unsatisfiable lists
+    vpsc::Rectangles rs; for (int i = 0; i < n; i++) { double x = R.rd(0, 100), y = R.rd(0, 100); rs.push_back(new vpsc::Rectangle(x, x + R.rd(5, 30), y, y + R.rd(5, 30))); }
+    std::vector<cola::Edge> es; for (int i = 1; i < n; i++) if (R.coin(0.8)) es.push_back(cola::Edge((unsigned)R.ri(0, i - 1), (unsigned)i));
+    cola::CompoundConstraints ccs; int nc = (int)R.ri(0, 6); long dups = 0;
+    for (int c = 0; c < nc; c++) {
+        int t = (int)R.ri(0, 3); unsigned u = (unsigned)R.ri(0, n - 1), v = (unsigned)R.ri(0, n - 1); vpsc::Dim dim = R.coin() ? vpsc::XDIM : vpsc::YDIM;
+        if (t == 0 && u != v) ccs.push_back(new cola::SeparationConstraint(dim, u, v, R.rd(0, 60), !overlaps && R.coin(0.2)));
+        else if (t == 1 && !overlaps) { cola::AlignmentConstraint *al = new cola::AlignmentConstraint(dim); al->addShape(u, 0); if (u != v) al->addShape(v, R.rd(-10, 10)); ccs.push_back(al); }
+        else if (t == 2) { cola::BoundaryConstraint *b = new cola::BoundaryConstraint(dim); b->addShape(u, -R.rd(1, 20)); if (u != v) b->addShape(v, R.rd(1, 20)); ccs.push_back(b); }
+        else if (!ccs.empty()) { ccs.push_back(ccs[R.ri(0, (long)ccs.size() - 1)]); dups++; }   // the same constraint object listed again
+    }
+    R.shuffle(ccs);
+    bool clusters = kind != 2 && n >= 4 && R.coin(0.4); bool run = R.coin(0.8); cola::TestConvergence tc(1e-3, (unsigned)R.ri(1, 12));
+    res.gen = kind == 0 ? "fd/freeAssociatedObjects" : kind == 1 ? "fd/caller-frees" : "majorization/unsatisfiable-lists"; res.nontrivial = dups > 0 || kind == 2;
+    Digest D; D.i(n); D.i(kind); D.i(nc); D.i(dups); D.i(clusters); D.i(overlaps); D.d(rs[0]->getMinX()); res.digest = D.h;
+    if (wantDesc) res.desc = JObj().i("n", n).str("kind", res.gen).i("constraints", (long)ccs.size()).i("duplicate_entries", dups).b("clusters", clusters).b("avoid_overlaps", overlaps).b("run", run).done();
+    if (getenv("VERIF_TRACE")) { printf("n=%d kind=%d clusters=%d overlaps=%d run=%d edges=%zu\n", n, kind, clusters, overlaps, run, es.size()); for (auto c : ccs) printf("  %p %s\n", (void *)c, c->toString().c_str()); fflush(stdout); }
+    int efd = dup(2); int nul = open("/dev/null", O_WRONLY); dup2(nul, 2); close(nul); struct EG { int fd; ~EG() { dup2(fd, 2); close(fd); } } eg{efd};
+    res.count("cola_lifecycles"); if (dups) res.count("constraint_vectors_with_repeated_pointers");
+    if (kind <= 1) {
+        cola::RootCluster *root = nullptr;
+        if (clusters) { root = new cola::RootCluster(); cola::RectangularCluster *c1 = new cola::RectangularCluster(); for (int i = 0; i < n / 2; i++) c1->addChildNode((unsigned)i); root->addChildCluster(c1); for (int i = n / 2; i < n; i++) root->addChildNode((unsigned)i); }
+        cola::UnsatisfiableConstraintInfos ux, uy;
+        {
+            cola::ConstrainedFDLayout alg(rs, es, R.rd(30, 80), cola::StandardEdgeLengths, &tc); alg.setConstraints(ccs); alg.setUnsatisfiableConstraintInfo(&ux, &uy);
+            if (overlaps) alg.setAvoidNodeOverlaps(true); if (root) alg.setClusterHierarchy(root);
+            if (run) { if (R.coin(0.3)) { set_stage("cola:makeFeasible"); alg.makeFeasible(); } set_stage("cola:run"); alg.run(); }
+            if (kind == 0) { set_stage("cola:freeAssociatedObjects"); alg.freeAssociatedObjects(); res.count("freeAssociatedObjects_calls"); }
+            set_stage("cola:~ConstrainedFDLayout");
+        }
+        for (auto u : ux) delete u; for (auto u : uy) delete u;
+        if (kind == 1) { std::set<cola::CompoundConstraint *> uniq(ccs.begin(), ccs.end()); for (auto c : uniq) delete c; for (auto r : rs) delete r; delete root; }
+    } else {
+        cola::UnsatisfiableConstraintInfos ux, uy; std::vector<double> el;
+        {
+            cola::ConstrainedMajorizationLayout alg(rs, es, nullptr, R.rd(30, 80), el, &tc); alg.setConstraints(&ccs); alg.setUnsatisfiableConstraintInfo(&ux, &uy);
+            if (overlaps) alg.setAvoidOverlaps(true);
+            if (run) { set_stage("majorization:run"); alg.run(); }
+            set_stage("majorization:~ConstrainedMajorizationLayout");
+        }
+        for (auto u : ux) delete u; for (auto u : uy) delete u;
+        std::set<cola::CompoundConstraint *> uniq(ccs.begin(), ccs.end()); for (auto c : uniq) delete c; for (auto r : rs) delete r;
+    }
+    vpsc::Rectangle::setXBorder(0); vpsc::Rectangle::setYBorder(0);
+}
+
 int main(int argc, char **argv) {
     return harness_main(argc, argv, "c15_api", [](const Args &a, long idx, bool wantDesc, CaseResult &res) {
         if (a.mode == "avoid") case_avoid(a, idx, wantDesc, res);
         else if (a.mode == "regress") case_regress(a, idx, wantDesc, res);
         else if (a.mode == "vpsc") case_vpsc(a, idx, wantDesc, res);
+        else if (a.mode == "cola") case_cola(a, idx, wantDesc, res);
         else res.inconclusive = "unknown-mode";
     });
 }
